@@ -110,4 +110,175 @@ example : (mpf_out_str {} 16 [49] 11).2.out = [48, 46, 49, 64, 49, 49] ∧
     parse (-16) [48, 46, 49, 64, 49, 49] = some ⟨false, 16, [0, 1], 1, 11⟩ ∧
     parse 16 [48, 46, 49, 64, 49, 49] = some ⟨false, 16, [0, 1], 1, 17⟩ := by decide +kernel
 
+/-! ## 2. The fast paths of mpz_import / mpz_export -/
+
+/-- `import_fast_eq_generic`: whatever the dispatch of import.c:60-90 chooses — MPN_COPY, MPN_BSWAP, MPN_REVERSE for
+    limb-sized words without nails in a limb-aligned buffer, the byte loop otherwise — the limbs stored are those
+    the generic byte loop alone (`mpz_import_generic`: the same code with the fast-path block removed) stores, for
+    every count, order, size, endianness, nail count, alignment and arbitrary data; in particular the result is
+    normalised on every path (`TopNZ`: MPN_NORMALIZE at `done:`), and `import_spec` holds for the code as dispatched. -/
+theorem import_fast_eq_generic (count : Nat) (order : Int) (size : Nat) (endian : Int) (nail align : Nat)
+    (data : List Nat) (ho : order = 1 ∨ order = -1) (he : endian = -1 ∨ endian = 0 ∨ endian = 1)
+    (hs : 1 ≤ size) (hn : nail < 8 * size) (hb : Bytes data) (hl : data.length = count * size) :
+    mpz_import count order size endian nail align data = mpz_import_generic count order size endian nail data ∧
+    TopNZ (mpz_import count order size endian nail align data) := by
+  obtain ⟨a1, a2, a3⟩ := mpz_import_spec count order size endian nail align data ho he hs hn hb hl
+  obtain ⟨b1, b2, b3⟩ := mpz_import_spec count order size endian nail 1 data ho he hs hn hb hl
+  exact ⟨normalized_unique a2 a3 b2 b3 (a1.trans b1.symm), a3⟩
+
+-- non-vacuity: an aligned big-endian buffer of two words, most significant first, whose top word is zero:
+-- the BSWAP_REVERSE combination has no fast path in import.c, order -1 / endian 1 has (MPN_BSWAP); both are
+-- normalised to one limb
+example : mpz_import 2 (-1) 8 1 0 0 [0, 0, 0, 0, 0, 0, 1, 2, 0, 0, 0, 0, 0, 0, 0, 0] = [258] ∧
+    mpz_import_generic 2 (-1) 8 1 0 [0, 0, 0, 0, 0, 0, 1, 2, 0, 0, 0, 0, 0, 0, 0, 0] = [258] := by decide +kernel
+
+/-- `import_obj_spec`: `mpz_import` on the object: after MPZ_REALLOC (new limbs arbitrary), the dispatched fill,
+    MPN_NORMALIZE and `SIZ (z) = zsize`, the destination is well formed, non-negative, and holds exactly
+    Σ (word i mod 2^numb)·2^(numb·i) — for every previous content of `z`. -/
+theorem import_obj_spec (z : Mpz) (hz : z.WF) (count : Nat) (order : Int) (size : Nat) (endian : Int)
+    (nail align : Nat) (data : List Nat) (junk : Nat → Nat) (hj : ∀ i, junk i < B)
+    (ho : order = 1 ∨ order = -1) (he : endian = -1 ∨ endian = 0 ∨ endian = 1)
+    (hs : 1 ≤ size) (hn : nail < 8 * size) (hb : Bytes data) (hl : data.length = count * size) :
+    (mpz_import_obj z count order size endian nail align data junk).WF ∧
+    (mpz_import_obj z count order size endian nail align data junk).toInt
+      = (importValue order size endian nail count data : Int) ∧
+    (mpz_import_obj z count order size endian nail align data junk).limbs
+      = mpz_import_generic count order size endian nail data := by
+  obtain ⟨a1, a2, a3⟩ := mpz_import_obj_spec z hz count order size endian nail align data junk hj ho he hs hn hb hl
+  obtain ⟨i1, _, _⟩ := mpz_import_spec count order size endian nail align data ho he hs hn hb hl
+  refine ⟨a3, ?_, ?_⟩
+  · unfold Mpz.toInt
+    rw [a1, a2, i1]
+    have : ¬ (((mpz_import count order size endian nail align data).length : Int) < 0) := by omega
+    simp only [this, if_false]
+  · rw [a1]; exact (import_fast_eq_generic count order size endian nail align data ho he hs hn hb hl).1
+
+example : mpz_import_obj ⟨1, -1, [77]⟩ 2 1 8 (-1) 0 0 [0, 0, 0, 0, 0, 0, 0, 0, 5, 0, 0, 0, 0, 0, 0, 0] (fun _ => 9)
+    = ⟨2, 1, [5, 0]⟩ := by decide +kernel
+
+/-- `export_fast_eq_generic`: the MPN_COPY / MPN_REVERSE / MPN_BSWAP / MPN_BSWAP_REVERSE fast paths of export.c:78-104
+    (limb-sized words, no nails, limb-aligned `data`) write the same count and the same bytes as the generic loop
+    alone; and on the object, `mpz_export` of zero stores `*countp = 0` and writes nothing, of a non-zero `z`
+    exactly `⌈bits/numb⌉` words holding the documented bytes (`exportBytes`). -/
+theorem export_fast_eq_generic (order endian : Int) (size nail align : Nat)
+    (ho : order = 1 ∨ order = -1) (he : endian = -1 ∨ endian = 0 ∨ endian = 1) (hs : 1 ≤ size)
+    (hn : nail < 8 * size) :
+    (∀ zl : List Nat, Limbs zl → TopNZ zl →
+      mpz_export order size endian nail align zl = mpz_export_generic order size endian nail zl) ∧
+    (∀ z : Mpz, z.WF →
+      mpz_export_obj order size endian nail align z
+        = (exportCount (8 * size - nail) z.toInt.natAbs, exportBytes order size endian nail z.toInt.natAbs) ∧
+      (z.size = 0 → mpz_export_obj order size endian nail align z = (0, []))) := by
+  constructor
+  · intro zl hL ht
+    rw [mpz_export_spec order endian size nail align zl ho he hs hn hL ht]
+    exact (mpz_export_spec order endian size nail 1 zl ho he hs hn hL ht).symm
+  · intro z hz
+    obtain ⟨h1, h2, h3, h4⟩ := hz
+    have hval : z.toInt.natAbs = val z.limbs := by unfold Mpz.toInt; split <;> omega
+    refine ⟨?_, fun h0 => by simp [mpz_export_obj, h0]⟩
+    unfold mpz_export_obj
+    by_cases h0 : z.size = 0
+    · have hl : z.limbs = [] := by unfold Mpz.limbs Mpz.abssize; simp [h0]
+      have hv0 : z.toInt.natAbs = 0 := by rw [hval, hl]; rfl
+      have hnumb : 0 < 8 * size - nail := by omega
+      have hc : exportCount (8 * size - nail) 0 = 0 := by
+        unfold exportCount bitLen; simp only [if_true]
+        exact Nat.div_eq_of_lt (by omega)
+      simp only [h0, if_true, hv0, hc, exportBytes]
+      simp [layout]
+    · simp only [h0, if_false, hval]
+      apply mpz_export_spec order endian size nail align z.limbs ho he hs hn
+      · exact Limbs_take h3 _
+      · intro hne
+        have hn0 : z.abssize ≠ 0 := by unfold Mpz.abssize; omega
+        have := h4 h0
+        unfold Mpz.limbs
+        rw [List.getLastD_eq_getLast?, List.getLast?_eq_getElem?, List.length_take]
+        have hm : min z.abssize z.d.length = z.abssize := by omega
+        rw [hm, List.getElem?_take_of_lt (by omega)]
+        rw [List.getD_eq_getElem?_getD] at this
+        exact this
+
+-- non-vacuity: MPN_BSWAP_REVERSE (order 1, endian 1, aligned) against the byte loop (misaligned); zero
+example : mpz_export 1 8 1 0 0 [0x0102030405060708, 0x1122] = (2, [0, 0, 0, 0, 0, 0, 0x11, 0x22, 1, 2, 3, 4, 5, 6, 7, 8]) ∧
+    mpz_export_generic 1 8 1 0 [0x0102030405060708, 0x1122] = (2, [0, 0, 0, 0, 0, 0, 0x11, 0x22, 1, 2, 3, 4, 5, 6, 7, 8]) ∧
+    mpz_export_obj 1 8 1 0 0 ⟨2, 0, [7, 7]⟩ = (0, []) := by decide +kernel
+
+/-! ## 4. Raw format beyond the 4-byte header -/
+
+/-- `raw_beyond_header`: what `mpz_out_raw` / `mpz_inp_raw` do with a magnitude of `n ≥ 2^31` bytes.
+    (a) `mpz_out_raw` does not refuse it: it writes all `n` bytes behind a header holding `±n mod 2^32`
+        (out_raw.c:145-156 truncate `bytes` to four bytes AFTER `ssize = 4 + bytes` was computed) and returns
+        `4 + n` — success;
+    (b) `mpz_inp_raw` decodes that header as `±n` wrapped into [−2^31, 2^31) (inp_raw.c:66-79), which is `±n` only
+        for `n = 2^31` with a NEGATIVE operand; in every other case it does NOT return the count `mpz_out_raw`
+        returned together with the value written — it fails (0), or consumes a different number of bytes, or (for
+        a positive operand of exactly 2^31 bytes: header 80 00 00 00) gives back `−v`.
+    So the round trip `raw_roundtrip` holds exactly up to 2^31 − 1 bytes (and 2^31 for negatives); beyond, the
+    record is silently unreadable although both functions report success.  `inp_raw_total` still holds: the
+    destination stays well formed for every header. -/
+theorem raw_beyond_header (v : Int) (hv : 2 ^ 31 ≤ byteLen v.natAbs) :
+    ((mpz_out_raw {} (Mpz.ofInt v)).2.out = outRawBytes v → (mpz_out_raw {} (Mpz.ofInt v)).1 = 4 + byteLen v.natAbs) ∧
+    (outRawBytes v).take 4 = hdrBytes (if v < 0 then -(byteLen v.natAbs : Int) else byteLen v.natAbs) ∧
+    rawHeaderDecoded v =
+      ((if v < 0 then -(byteLen v.natAbs : Int) else byteLen v.natAbs) + 2147483648) % 4294967296 - 2147483648 ∧
+    (¬ (byteLen v.natAbs = 2 ^ 31 ∧ v < 0) →
+      ∀ (x : Mpz), x.WF → ∀ (rest : List Nat), Bytes rest → ∀ (junk : Nat → Nat), (∀ i, junk i < B) →
+        ¬ ((mpz_inp_raw x ⟨outRawBytes v ++ rest, none⟩ junk).1 = 4 + byteLen v.natAbs ∧
+           (mpz_inp_raw x ⟨outRawBytes v ++ rest, none⟩ junk).2.1.toInt = v)) := by
+  have hlen : (outRawBytes v).length = 4 + byteLen v.natAbs := by simp [outRawBytes, hdrBytes]
+  refine ⟨?_, ?_, ?_, ?_⟩
+  · intro ho
+    have hne : (out_raw_m (Mpz.ofInt v)).isEmpty = false := by
+      have : 4 ≤ (out_raw_m (Mpz.ofInt v)).length := by unfold out_raw_m; simp [hdrBytes]
+      cases h : out_raw_m (Mpz.ofInt v) with
+      | nil => rw [h] at this; simp at this
+      | cons a t => rfl
+    have hw : (mpz_out_raw {} (Mpz.ofInt v)).2.out = out_raw_m (Mpz.ofInt v) := by
+      simp [mpz_out_raw, OStream.write, hne]
+    have hr : (mpz_out_raw {} (Mpz.ofInt v)).1 = (out_raw_m (Mpz.ofInt v)).length := by
+      simp [mpz_out_raw, OStream.write, hne]
+    rw [hr, ← hw, ho, hlen]
+  · have := (outRaw_pieces v []).1
+    simpa using this
+  · unfold rawHeaderDecoded rawHeaderOf
+    exact csizeOf_hdrBytes_wrap _
+  · intro hex x hx rest hr junk hj
+    intro ⟨hret, hval⟩
+    have hb : Bytes (outRawBytes v ++ rest) := Bytes_append.mpr ⟨outRawBytes_bytes v, hr⟩
+    obtain ⟨_, h⟩ := inp_raw_rd_spec x hx (outRawBytes v ++ rest) hb junk hj
+    unfold mpz_inp_raw Stream.avail at hret hval
+    simp only at hret hval
+    obtain ⟨p1, p2, p3⟩ := outRaw_pieces v rest
+    set n := byteLen v.natAbs with hn
+    have hcs : csizeOf ((outRawBytes v ++ rest).take 4)
+        = ((if v < 0 then -(n : Int) else (n : Int)) + 2147483648) % 4294967296 - 2147483648 := by
+      rw [p1]; exact csizeOf_hdrBytes_wrap _
+    set c := csizeOf ((outRawBytes v ++ rest).take 4) with hcdef
+    have hn31 : (2147483648 : Nat) ≤ n := by simpa using hv
+    split at h
+    · obtain ⟨h1, _, h3⟩ := h
+      rw [hret] at h1
+      -- the decoded count has the right magnitude only for -2^31
+      have hc : c = -2147483648 ∧ n = 2147483648 := by
+        split at hcs <;> omega
+      obtain ⟨hc1, hc2⟩ := hc
+      have hna : c.natAbs = n := by omega
+      have hcneg : ¬ (c ≥ 0) := by omega
+      rw [if_neg hcneg, hna, p2, p3, hval] at h3
+      have hvneg : v < 0 := by
+        have hv0 : v.natAbs ≠ 0 := by
+          intro h0
+          have : byteLen 0 = 0 := by decide
+          rw [hn, h0, this] at hn31; omega
+        omega
+      exact hex ⟨by simpa using hc2, hvneg⟩
+    · rw [h.1] at hret; omega
+
+-- non-vacuity of the header arithmetic (a 2^31-byte operand itself cannot be written down here): the header of a
+-- positive magnitude of 2^31 bytes is 80 00 00 00 and decodes to -2^31; 2^31 + 5 bytes decode to -(2^31 - 5)
+example : hdrBytes 2147483648 = [128, 0, 0, 0] ∧ csizeOf [128, 0, 0, 0] = -2147483648 ∧
+    csizeOf (hdrBytes 2147483653) = -2147483643 ∧ csizeOf (hdrBytes (-2147483648)) = -2147483648 := by decide +kernel
+
 end Mpir.Io
